@@ -49,8 +49,13 @@ Run ==
 
 RoundTrip == Is("rt") /\ Ev.exit1 = 0 /\ Ev.exit2 = 0 /\ Ev.same /\ Ev.same_listing /\ Step
 
+\* without -s / -n the tool computes exactly one date: the machine's local "today" (the harness brackets the run)
+Today == /\ Is("today") /\ Ev.exit = 0
+         /\ Len(Ev.keys) = 1 /\ Ev.keys[1] \in {Ev.before, Ev.after}
+         /\ Step
+
 TraceInit == l = Start
-TraceNext == Run \/ RoundTrip
+TraceNext == Run \/ RoundTrip \/ Today
 TraceSpec == TraceInit /\ [][TraceNext]_l
 TraceAccepted ==
     LET d == TLCGet("stats").diameter IN
